@@ -1,3 +1,4 @@
+import Noodles.Props.C10Record
 import Noodles.Bcf.Typed
 import Noodles.Bcf.StringMap
 import Noodles.Bcf.TypedProof
